@@ -26,25 +26,25 @@ ID = 'C04'
 COQ_FILES = ['Base/Mat.v', 'Base/SumQ.v', 'Model/SymTerm.v', 'Proofs/SymTerm.v', 'Proofs/SymTermLib.v', 'Gen/SymTermGen.v',
              'Model/SymTermGenRun.v', 'Proofs/SymTermGenThm.v', 'Model/SymTermKinds.v', 'Proofs/SymTermKinds.v',
              # equivariance of the STATEMENT-LEVEL models of C03 / C16 / C08 / C15 / C18 (their files are pulled in as dependencies)
-             'Proofs/EquivModels.v', 'Proofs/EquivModelsComp.v', 'Proofs/EquivModelsBetw.v', 'Proofs/EquivModelsCore.v',
+             'Proofs/EquivModels.v', 'Proofs/EquivModelsEff.v', 'Proofs/EquivModelsComp.v', 'Proofs/EquivModelsBetw.v', 'Proofs/EquivModelsCore.v',
              'Proofs/EquivModelsWalks.v', 'Proofs/EquivModelsLinear.v', 'Proofs/SymTermFull.v', 'Properties/C04.v']
 THEOREMS = ['C04_sumQ_reindex', 'C04_symterm_equivariant', 'C04_prog_equivariant', 'C04_measure_equivariant_scalar',
             'C04_measure_equivariant_vector', 'C04_measure_equivariant_matrix', 'C04_measure_equivariant_kinded', 'C04_library_equivariant',
-            'C04_degrees_und', 'C04_clustering_coef_bu', 'C04_transitivity_bu', 'C04_matching_ind',
-            'C04_gtom', 'C04_distance_bin', 'C04_kcore_bu', 'C04_participation_coef',
-            'C04_module_degree_zscore', 'C04_components', 'C04_assortativity_wei', 'C04_betweenness_bin',
-            'C04_kcoreness', 'C04_pagerank_equation', 'C04_eigenvector_equation', 'C04_pagerank_full',
+            'C04_library_instances', 'C04_pagerank_equation', 'C04_eigenvector_equation', 'C04_pagerank_full',
             'C04_eigenvector_full', 'C04_residual_terms_denote', 'C04_subgraph_truncation_partial', 'C04_inverse_renumbering',
             'C04_floyd_model_equivariant', 'C04_distance_wei_floyd_model_equivariant', 'C04_distance_bin_model_equivariant', 'C04_distance_wei_model_equivariant',
-            'C04_breadthdist_model_equivariant', 'C04_reachdist_model_equivariant', 'C04_get_components_model_equivariant', 'C04_number_of_components_model_equivariant',
-            'C04_betweenness_model_equivariant', 'C04_edge_betweenness_model_equivariant', 'C04_kcore_model_equivariant', 'C04_core_outputs_unfold',
-            'C04_kcoreness_model_equivariant', 'C04_findwalks_model_equivariant', 'C04_pagerank_model_equivariant', 'C04_eigenvector_model_equivariant',
-            'C04_list_permutation', 'C04_run_equivariant', 'C04_every_term_measure_equivariant', 'C04_denote_degrees_und',
-            'C04_denote_transitivity_bu', 'C04_gen_equivariant', 'C04_gen_run_equivariant', 'C04_gen_same_as_hand_sound']
+            'C04_breadthdist_model_equivariant', 'C04_reachdist_model_equivariant', 'C04_efficiency_model_equivariant', 'C04_ext_eq_unfold',
+            'C04_get_components_model_equivariant', 'C04_number_of_components_model_equivariant', 'C04_betweenness_model_equivariant', 'C04_edge_betweenness_model_equivariant',
+            'C04_kcore_model_equivariant', 'C04_core_outputs_unfold', 'C04_kcoreness_model_equivariant', 'C04_findwalks_model_equivariant',
+            'C04_pagerank_model_equivariant', 'C04_eigenvector_model_equivariant', 'C04_list_permutation', 'C04_run_equivariant',
+            'C04_every_term_measure_equivariant', 'C04_denote_degrees_und', 'C04_denote_transitivity_bu', 'C04_gen_equivariant',
+            'C04_gen_run_equivariant', 'C04_gen_same_as_hand_sound']
 RULE = ('structured graphs (cycles, complete, complete bipartite, stars, paths, disjoint copies, cube: repeated eigenvalues; '
         'isolated nodes) and Erdos-Renyi matrices n=2..8, binary/weighted (dyadic weights from a 2-4 element set: many '
         'ties), directed/undirected, signed, with label vectors (non-contiguous labels); every n! permutation for n<=4 '
-        '(quick) / n<=5 (thorough), random permutations beyond; one case = (measure, matrix, permutation); '
+        '(quick) / n<=5 (thorough), random permutations beyond; plus networks with self-connections, the one-node network and '
+        'Erdos-Renyi n=9..12; second arguments that belong to the nodes (labels, the pagerank prior falff, a position-distance matrix '
+        'for navigation) are renumbered with them; one case = (measure, matrix, permutation); '
         'non-trivial = permutation is not the identity and the matrix has an edge; distinct by hash')
 ASSUMES = ['outputs the property leaves free are not compared: eigenvector sign (abs is returned), component label numbering '
            '(compared as partitions), edge-list ordered outputs (ec, degij), number-of-edges / hops / predecessor matrices of '
@@ -176,7 +176,26 @@ def derive(ctx, name, B):
     Ws = Wu * np.where(sym(r.rand(n, n)) < 0.35, -1, 1)
     m = int(r.randint(1, min(n, 3) + 1))
     lab = r.choice([2, 5, 9][:m], size=n)   # non-contiguous labels
-    return {'name': name, 'n': n, 'bu': B.copy(), 'wu': Wu, 'bd': Bd, 'wd': Wd, 'su': Ws, 'ci': lab.astype(float)}
+    # distances between random node positions in the plane (symmetric, zero diagonal, generic: no ties)
+    xy = r.rand(n, 2)
+    pos = np.sqrt(((xy[:, None, :] - xy[None, :, :]) ** 2).sum(-1))
+    return {'name': name, 'n': n, 'bu': B.copy(), 'wu': Wu, 'bd': Bd, 'wd': Wd, 'su': Ws, 'ci': lab.astype(float), 'pos': pos}
+
+
+def with_loops(ctx, g):
+    """the same bundle with self-connections on some nodes (never produced by sym(): the skeleton has a zero diagonal)"""
+    r = ctx.nprng
+    n = g['n']
+    on = (r.rand(n) < 0.5).astype(float)
+    if not on.any():
+        on[int(r.randint(0, n))] = 1.0
+    h = dict(g); h['name'] = g['name'] + '+loops'
+    for kind in ('bu', 'bd'):
+        h[kind] = g[kind] + np.diag(on)
+    w = on * r.choice(WSET, size=n)
+    for kind in ('wu', 'wd', 'su'):
+        h[kind] = g[kind] + np.diag(w)
+    return h
 
 
 def random_skeleton(ctx, n):
@@ -209,8 +228,10 @@ def table():
     inv = bct.invert
     T = []
 
-    def add(name, kinds, outs, f, labels=False, need=None):
-        T.append({'name': name, 'kinds': kinds, 'outs': outs, 'f': f, 'labels': labels, 'need': need})
+    def add(name, kinds, outs, f, labels=False, need=None, aux=None):
+        # labels: the label vector g['ci'] is passed (and renumbered) with the matrix; aux: name of a second per-pair matrix of the
+        # bundle passed (and renumbered on both axes) with it
+        T.append({'name': name, 'kinds': kinds, 'outs': outs, 'f': f, 'labels': labels, 'need': need, 'aux': aux})
     # degree.py
     add('degrees_und', ['bu', 'wu'], 'v', bct.degrees_und)
     add('degrees_dir', ['bd', 'wd'], ('v', 'v', 'v'), bct.degrees_dir)
@@ -250,6 +271,8 @@ def table():
     add('rich_club_wu', ['wu'], 'd', bct.rich_club_wu)
     add('rich_club_wd', ['wd'], 'd', bct.rich_club_wd)
     add('score_wu', ['wu'], ('m', 's'), lambda W: bct.score_wu(W, 1.0))
+    add('kcore_bu:n-1', ['bu'], ('m', 's'), lambda A: bct.kcore_bu(A, len(A) - 1))
+    add('clique_communities', ['bu'], 'sets', lambda A: bct.clique_communities(A, 3))       # rows = communities, in no particular order
     add('local_assortativity_wu_sign', ['su'], ('v', 'v'), bct.local_assortativity_wu_sign)
     # centrality.py
     add('betweenness_bin', ['bu', 'bd'], 'v', bct.betweenness_bin)
@@ -258,6 +281,8 @@ def table():
     add('edge_betweenness_wei', ['wu', 'wd'], ('m', 'v'), lambda W: bct.edge_betweenness_wei(inv(W)))
     add('eigenvector_centrality_und', ['bu', 'wu'], 'v', bct.eigenvector_centrality_und, need='connected')
     add('pagerank_centrality', ['bu', 'wu', 'bd'], 'v', lambda A: bct.pagerank_centrality(A, 0.85))
+    # the prior falff is a per-node vector: it is renumbered WITH the nodes (labels 2/5/9 as a non-uniform positive prior); other damping
+    add('pagerank_centrality:falff', ['bu', 'wd'], 'v', lambda A, f: bct.pagerank_centrality(A, 0.5, falff=f), labels=True)
     add('subgraph_centrality', ['bu'], 'v', bct.subgraph_centrality)
     add('flow_coef_bd', ['bd', 'bu'], ('v', 's', 'v'), bct.flow_coef_bd)
     add('kcoreness_centrality_bu', ['bu'], ('v', 'd'), bct.kcoreness_centrality_bu)
@@ -267,6 +292,7 @@ def table():
     add('participation_coef', ['wu', 'bu'], 'v', bct.participation_coef, labels=True)
     add('participation_coef:in', ['wd'], 'v', lambda W, ci: bct.participation_coef(W, ci, 'in'), labels=True)
     add('participation_coef:out', ['wd'], 'v', lambda W, ci: bct.participation_coef(W, ci, 'out'), labels=True)
+    add('participation_coef_sparse', ['wu'], 'v', lambda W, ci: bct.participation_coef_sparse(_csr(W), ci), labels=True)
     add('participation_coef_sign', ['su'], ('v', 'v'), bct.participation_coef_sign, labels=True)
     add('diversity_coef_sign', ['su'], ('v', 'v'), bct.diversity_coef_sign, labels=True)
     add('gateway_coef_sign', ['su'], ('v', 'v'), bct.gateway_coef_sign, labels=True)
@@ -276,6 +302,17 @@ def table():
     add('distance_wei', ['wu', 'wd'], ('m', '-'), lambda W: bct.distance_wei(inv(W)))
     add('distance_wei_floyd', ['wu', 'wd'], ('m', '-', '-'), lambda W: bct.distance_wei_floyd(W, 'inv'))
     add('distance_wei_floyd:none', ['wu', 'wd'], ('m', '-', '-'), lambda W: bct.distance_wei_floyd(W))
+    add('distance_wei_floyd:log', ['wu', 'wd'], ('m', '-', '-'), lambda W: bct.distance_wei_floyd(W, 'log'))      # weights in (0, 1]
+    # breadth(CIJ, s) for every source s as the rows of one matrix (branch = which predecessor: tie-dependent, not compared)
+    add('breadth', ['bd'], 'm', lambda A: np.array([bct.breadth(A, s)[0] for s in range(len(A))]))
+    # findpaths raises on every input with this NumPy (TypeError in a print / IndexError): the entry is consistent as long as both
+    # sides raise alike and starts comparing as soon as the routine runs again; cycprob on the walk tensor of findwalks
+    add('findpaths', ['bd'], ('t3', 's', 'd', 's', '-', '-'), lambda A: bct.findpaths(A, min(3, len(A) - 1), np.arange(len(A))))
+    add('cycprob', ['bd'], ('d', 'd'), lambda A: bct.cycprob(bct.findwalks(A)[0]))
+    # the node sequence of THE shortest path, on networks where it is unique for every pair (trees, odd rings)
+    add('retrieve_shortest_path', ['bu'], 'paths', _all_shortest_paths, need='unique_sp')
+    # greedy navigation on a second matrix (distances between node positions: generic, so the greedy choice is unique)
+    add('navigation_wu', ['wu'], ('s', 'm', 'm', 'm', '-'), lambda W, D: bct.navigation_wu(bct.invert(W), D), aux='pos', need='connected')
     add('breadthdist', ['bu', 'bd'], ('m', 'm'), bct.breadthdist)
     add('reachdist', ['bu', 'bd'], ('m', 'm'), bct.reachdist)
     add('charpath', ['bu', 'bd'], ('s', 's', 'v', 's', 's'), lambda A: bct.charpath(bct.distance_bin(A)))
@@ -287,6 +324,9 @@ def table():
     add('efficiency_bin:local', ['bu', 'bd'], 'v', lambda A: bct.efficiency_bin(A, True))
     add('efficiency_wei', ['wu'], 's', bct.efficiency_wei)
     add('efficiency_wei:local', ['wu'], 'v', lambda W: bct.efficiency_wei(W, True))
+    add('efficiency_wei:original', ['wu'], 'v', lambda W: bct.efficiency_wei(W, 'original'))
+    add('resource_efficiency_bin', ['bu'], ('m', 'm'), lambda A: bct.resource_efficiency_bin(A, 0.5), need='connected')
+    add('rout_efficiency:log', ['wu'], ('s', 'm', 'v'), lambda W: bct.rout_efficiency(W, 'log'), need='connected')
     add('diffusion_efficiency', ['bu', 'wu'], ('s', 'm'), bct.diffusion_efficiency, need='connected')
     add('rout_efficiency', ['wu'], ('s', 'm', 'v'), lambda W: bct.rout_efficiency(W, 'inv'), need='connected')
     # similarity.py
@@ -304,6 +344,40 @@ def table():
     for wcm in ('binarize', 'normalize', 'lengths'):
         add('weight_conversion:' + wcm, ['wd'], 'm', lambda W, wcm=wcm: bct.weight_conversion(W, wcm))
     return T
+
+
+def _csr(W):
+    import scipy.sparse
+    return scipy.sparse.csr_matrix(W)
+
+
+def _all_shortest_paths(A):
+    import bct
+    _, hops, Pmat = bct.distance_wei_floyd(A)
+    n = len(A)
+    return {(s, t): np.asarray(bct.retrieve_shortest_path(s, t, hops, Pmat)).ravel().astype(int).tolist()
+            for s in range(n) for t in range(n) if s != t and hops[s, t] > 0}
+
+
+def unique_shortest_paths(B):
+    """every connected ordered pair of the binary undirected network B is joined by exactly one shortest path (brute force: BFS layers
+    with path counts)"""
+    n = len(B)
+    for s in range(n):
+        dist = {s: 0}; cnt = {s: 1}; layer = [s]
+        while layer:
+            nxt = []
+            for u in layer:
+                for v in range(n):
+                    if B[u, v]:
+                        if v not in dist:
+                            dist[v] = dist[u] + 1; cnt[v] = 0; nxt.append(v)
+                        if dist[v] == dist[u] + 1:
+                            cnt[v] += cnt[u]
+            layer = nxt
+        if any(c > 1 for c in cnt.values()):
+            return False
+    return True
 
 
 def quiet(f, *a):
@@ -324,6 +398,10 @@ def close(a, b):
     if a.shape != b.shape:
         return False
     fa, fb = np.isfinite(a), np.isfinite(b)
+    if fa.all() and fb.all():           # the common case, without the nan / inf bookkeeping below (same verdict)
+        if not a.size:
+            return True
+        return bool(np.all(np.abs(a - b) <= TOL * max(1.0, float(np.abs(a).max()))))
     if not np.array_equal(fa, fb):
         return False
     if not np.array_equal(np.where(fa, 0, np.nan_to_num(a, nan=7e300, posinf=8e300, neginf=-8e300)),
@@ -363,6 +441,22 @@ def compare(outs, r0, r1, p):
         if kind == 'ms':
             if not close(np.sort(np.asarray(a, float)), np.sort(np.asarray(b, float))):
                 return 'output %d (multiset) differs' % k
+            continue
+        if kind == 'paths':
+            # b[(i, j)] is a node sequence of the renumbered network: node x there is node p[x] of the original
+            pl = list(p)
+            want = {(i, j): a.get((pl[i], pl[j])) for (i, j) in b}
+            got = {ij: [pl[x] for x in seq] for ij, seq in b.items()}
+            if len(a) != len(b) or want != got:
+                bad = [ij for ij in got if got[ij] != want[ij]][:1]
+                return 'output %d (paths): pair %s: expected %s got %s' % (k, bad, [want[x] for x in bad], [got[x] for x in bad])
+            continue
+        if kind == 'sets':
+            # rows are 0/1 membership vectors over the nodes; the ORDER of the rows is free
+            ra = sorted(tuple(np.asarray(r)[p].astype(int).tolist()) for r in np.atleast_2d(np.asarray(a)).reshape(-1, len(p)))
+            rb = sorted(tuple(np.asarray(r).astype(int).tolist()) for r in np.atleast_2d(np.asarray(b)).reshape(-1, len(p)))
+            if ra != rb:
+                return 'output %d (set of node sets): expected %s got %s' % (k, ra, rb)
             continue
         want = transport(kind, a, p)
         if not close(want, b):
@@ -486,6 +580,49 @@ def corr_entries(bct, g):
     return E
 
 
+def metamorphic_on(ctx, T, g, perms, stats):
+    n = g['n']
+    conn = connected(g['bu'])
+    usp = None
+    for m in T:
+        for kind in m['kinds']:
+            if m['need'] == 'connected' and not conn:
+                continue
+            if m['need'] == 'unique_sp':
+                usp = unique_shortest_paths(g['bu']) if usp is None else usp
+                if not usp:
+                    continue
+            A = g[kind]
+            args0 = (A.copy(), g['ci'].copy()) if m['labels'] else ((A.copy(), g[m['aux']].copy()) if m['aux'] else (A.copy(),))
+            ctx.take_variants()
+            r0, e0 = safe(m['f'], *args0)
+            v0 = ctx.take_variants() or []       # input-representation layer: the two calls of a pair may run on different representations
+            for p in perms:
+                Ap = A[np.ix_(p, p)].copy()
+                args1 = (Ap, g['ci'][p].copy()) if m['labels'] else ((Ap, g[m['aux']][np.ix_(p, p)].copy()) if m['aux'] else (Ap,))
+                r1, e1 = safe(m['f'], *args1)
+                v1 = ctx.take_variants() or []
+                case = {'measure': m['name'], 'kind': kind, 'graph': g['name'], 'A': A.tolist(), 'perm': p.tolist()}
+                if v0 or v1:
+                    case['_input_variant'] = v0 + v1
+                if m['labels']:
+                    case['ci'] = g['ci'].tolist()
+                if m['aux']:
+                    case['aux'] = g[m['aux']].tolist()
+                ctx.case(case, nontrivial=bool(A.any()) and not np.array_equal(p, np.arange(n)))
+                key = m['name'].split(':')[0] + ':equivariance'
+                if e0 or e1:
+                    if e0 != e1:
+                        ctx.fail(key, 'raises %s on the original but %s on the renumbered network' % (e0, e1), case)
+                    else:
+                        ctx.count('both_raise:' + m['name'] + ':' + str(e0))
+                    continue
+                why = compare(m['outs'], r0, r1, p)
+                if why:
+                    ctx.fail(key, 'f(A[ix_(p,p)]) != p.f(A): ' + why, case)
+                stats[m['name']] = stats.get(m['name'], 0) + 1
+
+
 def run(ctx):
     import bct
     T = table()
@@ -500,6 +637,14 @@ def run(ctx):
     for t in range(ctx.scale(22, 300)):
         n = int(ctx.nprng.randint(2, 9))
         graphs.append(derive(ctx, 'er', random_skeleton(ctx, n)))
+    n_corr_pool = len(graphs)          # the correspondence below draws from these (terms are specifications on loop-free networks)
+    # never produced by the families above: self-connections, a single node, more than 8 nodes
+    for t in range(ctx.scale(2, 12)):
+        graphs.append(with_loops(ctx, derive(ctx, 'er', random_skeleton(ctx, int(ctx.nprng.randint(3, 7))))))
+    graphs.append(derive(ctx, 'single', np.zeros((1, 1))))
+    graphs.append(with_loops(ctx, derive(ctx, 'single', np.zeros((1, 1)))))
+    for t in range(ctx.scale(2, 12)):
+        graphs.append(derive(ctx, 'er-large', random_skeleton(ctx, int(ctx.nprng.randint(9, 13)))))
     nrand = ctx.scale(3, 6)
     stats = {}
     for g in graphs:
@@ -515,43 +660,15 @@ def run(ctx):
             if n >= 2:
                 q = np.arange(n); q[0], q[n - 1] = q[n - 1], q[0]; perms.append(q)
                 q = np.roll(np.arange(n), 1); perms.append(q)
-        conn = connected(g['bu'])
-        for m in T:
-            for kind in m['kinds']:
-                if m['need'] == 'connected' and not conn:
-                    continue
-                A = g[kind]
-                args0 = (A.copy(), g['ci'].copy()) if m['labels'] else (A.copy(),)
-                ctx.take_variants()
-                r0, e0 = safe(m['f'], *args0)
-                v0 = ctx.take_variants() or []       # input-representation layer: the two calls of a pair may run on different representations
-                for p in perms:
-                    Ap = A[np.ix_(p, p)].copy()
-                    args1 = (Ap, g['ci'][p].copy()) if m['labels'] else (Ap,)
-                    r1, e1 = safe(m['f'], *args1)
-                    v1 = ctx.take_variants() or []
-                    case = {'measure': m['name'], 'kind': kind, 'graph': g['name'], 'A': A.tolist(), 'perm': p.tolist()}
-                    if v0 or v1:
-                        case['_input_variant'] = v0 + v1
-                    if m['labels']:
-                        case['ci'] = g['ci'].tolist()
-                    ctx.case(case, nontrivial=bool(A.any()) and not np.array_equal(p, np.arange(n)))
-                    key = m['name'].split(':')[0] + ':equivariance'
-                    if e0 or e1:
-                        if e0 != e1:
-                            ctx.fail(key, 'raises %s on the original but %s on the renumbered network' % (e0, e1), case)
-                        else:
-                            ctx.count('both_raise:' + m['name'] + ':' + str(e0))
-                        continue
-                    why = compare(m['outs'], r0, r1, p)
-                    if why:
-                        ctx.fail(key, 'f(A[ix_(p,p)]) != p.f(A): ' + why, case)
-                    stats[m['name']] = stats.get(m['name'], 0) + 1
+        # n = 1 is about index handling (empty ranges, shape (1,1)); its arrays are 0/1-valued whatever the kind, so the input-
+        # representation layer would turn nearly every call into a dtype experiment (charpath on a bool [[0]]): arguments as passed there
+        with (no_variants() if n == 1 else contextlib.nullcontext()):
+            metamorphic_on(ctx, T, g, perms, stats)
     ctx.extra['metamorphic_comparisons_per_measure'] = stats
 
     # ------------------------------------------------------------ correspondence with the extracted term evaluator
     lines, pend = [], []
-    cg = [g for g in graphs if g['n'] <= 7]
+    cg = [g for g in graphs[:n_corr_pool] if g['n'] <= 7]
     cg = cg[:ctx.scale(34, 200)]
     for g in cg:
         for name, line, want, exact, case in corr_entries(bct, g):
@@ -619,8 +736,30 @@ def run(ctx):
             ok = np.array_equal(M, w) if exact else close(M, w)
         if not ok:
             ctx.mismatch(name, 'term evaluator and implementation differ', case, M.tolist(), w.tolist())
+    # ------------------------------------------------------------ output kinds
+    # eval_s / eval_v / eval_m read a result of another kind as 0: the kinded theorems (C04_library_equivariant, C04_gen_equivariant)
+    # select the reading by the kind computed from the syntax; here that kind (and the one the table kind_by_id pins) is compared
+    # with the SHAPE of what the implementation returns for the entry
+    kk = {}
+    for (name, w, exact, case), line in zip(pend, lines):
+        nn = len(case['A'])
+        if nn >= 2:
+            mid, k = (int(x) for x in line.split()[1:3])
+            kk.setdefault((mid, k, 1 if w is None else shape_kind(np.asarray(w).shape, nn)), (name, case))
+    kres = run_model(ID, ['mkind %d %d' % (mid, k) for (mid, k, _) in kk])
+    ctx.model_cases += len(kk)
+    for ((mid, k, want), (name, case)), r in zip(kk.items(), kres):
+        ctx.count('kind_checked')
+        if is_err(r) or list(r) != [want, want]:
+            ctx.mismatch(name.split(':')[0] + ':kind', 'output kind of the term (measure_by_id %d %d: [from the syntax, from the table kind_by_id]) vs kind of the '
+                         'implementation\'s output (0 scalar, 1 per-node vector, 2 per-pair matrix)' % (mid, k), case, r, want)
     # ------------------------------------------------------------ programs regenerated from the Python source
     gen_correspondence(ctx, bct, cg)
+
+
+def shape_kind(shape, n):
+    """kind of an output already normalised to 2-D: (1,1) scalar, (1,n) per-node vector, (n,n) per-pair matrix (n >= 2)"""
+    return 0 if tuple(shape) == (1, 1) else (1 if tuple(shape) == (1, n) else (2 if tuple(shape) == (n, n) else -1))
 
 
 def has_prim(p):
@@ -690,6 +829,12 @@ def gen_correspondence(ctx, bct, cg):
                         if hand is not None:
                             lines.append(enc_case(hand[0], hand[1], Af, (), kq))
                             pend.append(('hand', t, w, case, prim))
+    gk = {}
+    for (what, t, w, case, prim) in pend:
+        if what == 'impl' and len(case['A']) >= 2:
+            gk.setdefault(GEN['table'].index(t), (shape_kind(w.shape, len(case['A'])), t, case))
+    for idx, (want, t, case) in gk.items():
+        lines.append('gkind %d' % idx); pend.append(('kind', t, want, case, None))
     sync = {}
     for idx, t in enumerate(GEN['table']):
         hand = GEN_HAND.get(t['name'])
@@ -706,6 +851,11 @@ def gen_correspondence(ctx, bct, cg):
             ctx.mismatch('model-error:gen:' + name, m['error'], case); continue
         if what == 'same':
             sync[name] = bool(m)
+            continue
+        if what == 'kind':
+            ctx.count('gen_kind_checked')
+            if m != w:
+                ctx.mismatch(fn + ':generated-kind', 'output kind of the generated program (%s, from its syntax) vs kind of the implementation\'s output' % name, case, m, w)
             continue
         Mq = [[dec_q(x) for x in rowv] for rowv in m]
         M = np.array([[float(x) for x in rowv] for rowv in Mq], float)
@@ -757,6 +907,9 @@ def replay(ctx, payload):
     ci = np.array(case.get('ci', []), float)
     a0 = (A.copy(), ci.copy()) if m['labels'] else (A.copy(),)
     a1 = (A[np.ix_(p, p)].copy(), ci[p].copy()) if m['labels'] else (A[np.ix_(p, p)].copy(),)
+    if m['aux']:
+        X = np.array(case['aux'], float)
+        a0, a1 = (A.copy(), X.copy()), (A[np.ix_(p, p)].copy(), X[np.ix_(p, p)].copy())
     r0, e0 = safe(m['f'], *a0); r1, e1 = safe(m['f'], *a1)
     print('A =', A.tolist()); print('perm =', p.tolist())
     print('f(A) =', tolist(r0), e0); print('f(A[ix_(p,p)]) =', tolist(r1), e1)
